@@ -74,6 +74,11 @@ def name_repr(tokens, rep):
         return [uri_of(t) if i % 2 == 0 else bytearray(comps[i]) for i, t in enumerate(tokens)]
     if rep == 'mview':
         return memoryview(ts.tlv(7, b''.join(comps)))
+    if rep == 'gen':
+        # a one-shot iterator of components (e.g. itertools.chain(prefix, [segment])) is a documented form of a name
+        return (uri_of(t) if i % 2 == 1 else bytes(comps[i]) for i, t in enumerate(list(tokens)))
+    if rep == 'tuple':
+        return tuple(bytes(c) for c in comps)
     raise ValueError(rep)
 
 
@@ -160,7 +165,7 @@ def space_names(tier):
     menu_i = ['a', 'E', 'K', 'T', 'L', 'I', 'P']
     for kind in ('I', 'D'):
         for toks in all_names(menu_i, 3):
-            reps = ['list', 'uri', 'bytes', 'mixed'] if len(toks) <= 2 else [['list', 'uri', 'bytes', 'mixed', 'mview'][hash_small(toks) % 5]]
+            reps = ['list', 'uri', 'bytes', 'mixed', 'gen'] if len(toks) <= 2 else [['list', 'uri', 'bytes', 'mixed', 'mview', 'gen', 'tuple'][hash_small(toks) % 7]]
             for rep in reps:
                 for plen in (None, 0, 1):
                     for signer in ('none', 'digest'):
@@ -182,6 +187,12 @@ def space_params(tier):
             for plen in (None, 0, 5):
                 for signer in ('none', 'digest', 'hmac', 'null'):
                     yield {'k': 'D', 'name': toks, 'rep': 'list', 'p': i, 'plen': plen, 'signer': signer}
+    # the same parameter objects built through their alternative constructor (a dictionary of keyword values, every key present)
+    for i in range(len(IPARAMS)):
+        yield {'k': 'I', 'name': ['a'], 'rep': 'list', 'p': i, 'plen': 5, 'signer': 'digest', 'via': 'dict'}
+    for i in range(len(METAS)):
+        if METAS[i] is not None:
+            yield {'k': 'D', 'name': ['a'], 'rep': 'list', 'p': i, 'plen': 5, 'signer': 'digest', 'via': 'dict'}
 
 
 def space_lengths(tier):
@@ -289,9 +300,9 @@ def run_case(case):
         try:
             if kind == 'I':
                 p = DEFAULT_IP if case['p'] == 'default' else IPARAMS[case['p']]
-                ip = enc.InterestParam(can_be_prefix=p['can_be_prefix'], must_be_fresh=p['must_be_fresh'], nonce=p['nonce'],
-                                       lifetime=p['lifetime'], hop_limit=p['hop_limit'],
-                                       forwarding_hint=[list(x) for x in FH_MENU[p['fh']]])
+                kw = dict(can_be_prefix=p['can_be_prefix'], must_be_fresh=p['must_be_fresh'], nonce=p['nonce'],
+                          lifetime=p['lifetime'], hop_limit=p['hop_limit'], forwarding_hint=[list(x) for x in FH_MENU[p['fh']]])
+                ip = enc.InterestParam.from_dict(dict(kw, unrelated_key=1)) if case.get('via') == 'dict' else enc.InterestParam(**kw)
                 wire, final_name = enc.make_interest(name_in, ip, payload, signer, need_final_name=True)
             else:
                 m = DEFAULT_META if case['p'] == 'default' else METAS[case['p']]
@@ -299,7 +310,8 @@ def run_case(case):
                     mi = None
                 else:
                     fb = {None: None, 'empty': b'', 'seg': bytes(enc.Component.from_segment(7))}[m['final']]
-                    mi = enc.MetaInfo(content_type=m['content_type'], freshness_period=m['freshness_period'], final_block_id=fb)
+                    kw = dict(content_type=m['content_type'], freshness_period=m['freshness_period'], final_block_id=fb)
+                    mi = enc.MetaInfo.from_dict(dict(kw, unrelated_key=1)) if case.get('via') == 'dict' else enc.MetaInfo(**kw)
                 wire = enc.make_data(name_in, mi, payload, signer)
                 final_name = None
         except Exception as e:  # noqa
